@@ -51,7 +51,9 @@ theorem decision_eq (i : In) :
     let early := Extracted.earlyCond a1
     let a2 : Atoms := { a1 with delaysNonEmpty := i.spawnDelays || (chg && i.changeDelays) }
     decision i = { add := add, removeUnneeded := rem, release := !early && Extracted.releaseCond a2,
-                   handlersRun := chg && !early } := by
+                   handlersRun := chg && !early,
+                   -- `return list(spawning_delays), False` vs. `delays = list(spawning_delays) + list(changing_delays)`
+                   delays := if early then i.spawnDelays else a2.delaysNonEmpty } := by
   rcases i with ⟨a, b, c, d, e, f, g, h, j, k⟩
   cases a <;> cases b <;> cases c <;> cases d <;> cases e <;> cases f <;> cases g <;> cases h <;>
     cases j <;> cases k <;> rfl
